@@ -563,6 +563,21 @@ def _reads_shared(test: ast.AST) -> bool:
     return False
 
 
+def _shared_check_stmts(fn: ast.AST, ifstmt: ast.If) -> list[ast.AST]:
+    """The statements that make up a check of shared liveness state by `ifstmt`: the `if` itself when its test reads
+    `self.<runtime>.<attr>`; when the test is over locals (`active = self.run_id in self._runtime._active_run_ids` …
+    `if active:`), every statement whose right-hand side reads the shared state and may flow into the test (dependence
+    slice, any path) *and* the `if` — the read, not only the branch, has to lie inside the critical section."""
+    from ..astx import dep_slice
+
+    if _reads_shared(ifstmt.test):
+        return [ifstmt]
+    sl = dep_slice(fn, ifstmt.test)
+    reads = [enclosing_stmt(e) for e in sl.exprs if e is not ifstmt.test and _reads_shared(e)]
+    reads = [r for r in reads if r is not None and r is not ifstmt]
+    return reads + [ifstmt] if reads else []
+
+
 def _check_sources(fn: ast.AST, cfg: CFG, stmt: ast.AST) -> list[ast.AST]:
     """Statements that read shared liveness / lifecycle state and on whose outcome (or effect) the send relies:
     (a) a dominating test over `self.<runtime>.<attr>`; (b) the assignment of an awaited call result that a
@@ -576,8 +591,8 @@ def _check_sources(fn: ast.AST, cfg: CFG, stmt: ast.AST) -> list[ast.AST]:
             if t.kind != "test":
                 continue
             test = t.ast.test
-            if _reads_shared(test) and isinstance(t.ast, ast.If):
-                out.append(t.ast)
+            if isinstance(t.ast, ast.If):
+                out += _shared_check_stmts(fn, t.ast)
             for x in ast.walk(test):
                 if isinstance(x, ast.Name) and isinstance(x.ctx, ast.Load):
                     d = reaching_def(x.id, t.ast)
@@ -592,8 +607,8 @@ def _check_sources(fn: ast.AST, cfg: CFG, stmt: ast.AST) -> list[ast.AST]:
             lst, i = locn
             for prev in lst[:i]:
                 for x in ast.walk(prev):
-                    if isinstance(x, ast.If) and _reads_shared(x.test):
-                        out.append(x)
+                    if isinstance(x, ast.If):
+                        out += _shared_check_stmts(fn, x)
         cur = parent(cur)
     seen, uniq = set(), []
     for s in out:
@@ -890,7 +905,8 @@ def rule_r2(chk) -> None:
         for n in cfg.nodes_of(enclosing_stmt(c)):
             for t, _l in cfg.guards(n):
                 if t.kind == "test":
-                    for x in ast.walk(t.ast.test):
+                    # the tested value may be held in a straight-line local (`idle_since = handlers[0].idle_since` … `if idle_since is None`)
+                    for x in ast.walk(expand(t.ast.test, t.ast)):
                         if isinstance(x, ast.Compare) and isinstance(x.left, ast.Attribute) and any(isinstance(o, (ast.Is, ast.IsNot)) for o in x.ops):
                             markers.add(x.left.attr)
     if len(markers) != 1:
@@ -1125,6 +1141,12 @@ _R1_GUARD_B = "        if _check_idle_state(init):\n            return init, [Co
 _R1_GUARD_C = "        still_idle = _check_idle_state(init)\n        if still_idle and init.is_running:\n            return init, [CommandCompleteRun(result=IdleReleasedEvent())]\n        return init, []\n"
 _R1_INV = "        if _check_idle_state(init):\n            return init, []\n        return init, [CommandCompleteRun(result=IdleReleasedEvent())]\n"
 
+_R3_SEND_OLD = ("        async with self._runtime._reload_lock(self.run_id):\n            if self.run_id not in self._runtime._active_run_ids:\n"
+                "                await self._runtime._ensure_active_run_locked(self.run_id)\n            else:\n"
+                "                await self._runtime._store.update_handler_status(\n                    self.run_id, idle_since=None\n                )\n")
+_R3_SEND_ARMS = ("            if run_is_active:\n                await self._runtime._store.update_handler_status(\n                    self.run_id, idle_since=None\n                )\n"
+                 "            else:\n                await self._runtime._ensure_active_run_locked(self.run_id)\n")
+
 TWINS = [
     # ---- R1 (the pinned tree has the unguarded form; the guarded forms are the repaired tree)
     # the guard forms below discharge R1 (verified in the module's own checks) but, alone, create the stuck-`releasing` hazard that R6 reports
@@ -1150,6 +1172,15 @@ TWINS = [
     Twin("R3 benign: inverted membership test", _SRV,
          "            if self.run_id not in self._runtime._active_run_ids:\n                await self._runtime._ensure_active_run_locked(self.run_id)\n            else:\n                await self._runtime._store.update_handler_status(\n                    self.run_id, idle_since=None\n                )\n",
          "            if self.run_id in self._runtime._active_run_ids:\n                await self._runtime._store.update_handler_status(\n                    self.run_id, idle_since=None\n                )\n            else:\n                await self._runtime._ensure_active_run_locked(self.run_id)\n", None),
+    Twin("R3 benign: membership test held in a local, arms swapped", _SRV, _R3_SEND_OLD,
+         "        async with self._runtime._reload_lock(self.run_id):\n            run_is_active = self.run_id in self._runtime._active_run_ids\n" + _R3_SEND_ARMS, None),
+    Twin("R3 liveness read into a local before the lock is taken", _SRV, _R3_SEND_OLD,
+         "        run_is_active = self.run_id in self._runtime._active_run_ids\n        async with self._runtime._reload_lock(self.run_id):\n" + _R3_SEND_ARMS, "C26.R3"),
+    Twin("R3 local liveness test, send after leaving the lock", _SRV, _R3_SEND_OLD + "            await self._decorated.send_event(tick)\n",
+         "        async with self._runtime._reload_lock(self.run_id):\n            run_is_active = self.run_id in self._runtime._active_run_ids\n" + _R3_SEND_ARMS
+         + "        await self._decorated.send_event(tick)\n", "C26.R3"),
+    Twin("R2 benign: marker read through a local", _SRV, "            if len(handlers) != 1 or handlers[0].idle_since is None:\n                return\n            elapsed = (\n                datetime.now(timezone.utc) - handlers[0].idle_since\n            ).total_seconds()\n",
+         "            if len(handlers) != 1:\n                return\n            idle_since = handlers[0].idle_since\n            if idle_since is None:\n                return\n            elapsed = (datetime.now(timezone.utc) - idle_since).total_seconds()\n", None),
     Twin("R3 benign: lock bound to a local", _SRV, "        async with self._reload_lock(run_id):\n            handlers = await self._store.query", "        lock = self._reload_lock\n        async with lock(run_id):\n            handlers = await self._store.query", None),
     # ---- R4
     Twin("R4 begin_release unconditional (postgres)", _LIFE, 'f"WHERE run_id = $3 AND state = $4 RETURNING run_id",', 'f"WHERE run_id = $3 RETURNING run_id",', "C26.R4"),
